@@ -345,6 +345,60 @@ theorem bin_width (s : Spec) (npw nc : Nat) (hnc : nc ≠ 0) (h1 : s.totalSample
   · unfold Spec.binWidth Spec.downsampledBy
     push_cast; ring
 
+/-- **windowed_is_mean.**  For every bin `1 ≤ k ≤ ⌊N_w/2⌋` the windowed spectrum is the mean, over the
+    `⌊N/N_w⌋` windows, of the un-windowed spectra of the single windows (each computed on its own, i.e. with the
+    window's own mean removed).  Bin `0` is excluded on purpose: the code removes the *global* mean once, so the
+    zero-frequency bin of the windowed spectrum carries the spread of the window means, whereas each
+    single-window spectrum has an empty bin `0` (see `psd_bin0`). -/
+theorem windowed_is_mean (fs : ℝ) (x : List ℝ) (npw k : Nat) (hk1 : 1 ≤ k) (hk2 : k ≤ npw / 2) :
+    (psdPower x fs npw).getD k 0 =
+      rsum ((chunks x npw).map fun w => (psdPower w fs w.length).getD k 0) / ((x.length / npw : ℕ) : ℝ) := by
+  have hkN : k < npw := by omega
+  -- right-hand side: every window is a full single-window spectrum
+  have hR : ((chunks x npw).map fun w => (psdPower w fs w.length).getD k 0)
+      = ((chunks x npw).map fun w => dftSq w k).map (scaling fs npw * ·) := by
+    rw [List.map_map]
+    apply List.map_congr_left
+    intro w hw
+    have hl := mem_chunks_length x npw w hw
+    simp only [Function.comp]
+    rw [hl, psdPower_single fs w npw k hl hk1 hk2]
+  -- left-hand side: the global mean drops out of every window for k ≥ 1
+  have hL : (((chunks (demean x) npw).map rfftSq).map fun r => r.getD k (0.0 : ℝ))
+      = (chunks x npw).map fun w => dftSq w k := by
+    unfold demean
+    rw [chunks_map, List.map_map, List.map_map]
+    apply List.map_congr_left
+    intro w hw
+    have hl := mem_chunks_length x npw w hw
+    simp only [Function.comp]
+    unfold rfftSq
+    rw [List.length_map, hl, getD_map_range _ _ _ _ (by omega)]
+    exact dftSq_sub_const _ w k (by omega) (by omega)
+  rw [hR, rsum_map_mul, psdPower_def]
+  unfold meanRows
+  rw [List.map_map, getD_map_range _ _ _ _ (by omega)]
+  simp only [Function.comp]
+  have hlen : (chunks (demean x) npw).length = x.length / npw := by
+    rw [chunks_length]; simp [demean]
+  rw [hL, ofNat'_real, List.length_map, hlen]
+  ring
+
+/-- non-vacuity of the hypotheses of `windowed_is_mean`: bin 1 of windows of two points -/
+example : (1 : ℕ) ≤ 1 ∧ 1 ≤ 2 / 2 := by decide
+
+/-- **psd_bin0.**  Without windowing the zero-frequency bin is empty (the mean has been removed). -/
+theorem psd_bin0 (fs : ℝ) (x : List ℝ) (hx : x ≠ []) : (psdPower x fs x.length).getD 0 1 = 0 := by
+  have hn : 0 < x.length := List.length_pos_iff.mpr hx
+  have hdl : (demean x).length = x.length := by simp [demean]
+  rw [psdPower_def, chunks_self _ x.length hn hdl]
+  simp only [List.map_cons, List.map_nil, meanRows, List.map_map, List.length_singleton]
+  rw [getD_map_range _ _ _ _ (by omega)]
+  simp only [Function.comp, rsum, ofNat'_real, zero_lit]
+  unfold rfftSq
+  rw [hdl, getD_map_range _ _ _ _ (by omega), dftSq_demean_zero]
+  simp
+
 end psd
 
 end Verif.C10
